@@ -176,12 +176,12 @@ OPTION_VALUES = {
     "version_major": [1, 2, 16],
     "version_minor": [0, 3, 28],
     "family": ["An Emoji Family", "Fam B", "Noto Übung"],
-    "reuse_tolerance": [0.1, -1.0, 0.05, 0.5],
+    "reuse_tolerance": [0.1, -1.0, 0.05, 0.2],
     "keep_glyph_names": [False, True],
     "clip_to_viewbox": [True, False],
     "clipbox_quantization": [1, 16, 50],
     "pretty_print": [False, True],
-    "transform": ["1 0 0 1 0 0", "1 0 0 1 20 -10", "0.5 0 0 0.5 0 0", "translate(10, 20)"],
+    "transform": ["translate(0, 0)", "matrix(1 0 0 1 20 -10)", "scale(0.5)", "translate(10, 20)"],
     "bitmap_resolution": [32, 16, 24, 48],
     "use_pngquant": [True, False],
     "use_zopflipng": [True, False],
